@@ -17,9 +17,11 @@ CONSTANTS MaxLen,      \* longest abstract bit sequence
           Memory,      \* 1: the VIEW keeps the class of the previous call
           MaxDepth     \* longest history (bounds the random walks of -simulate; the cover needs no bound)
 
-VARIABLES o, hist, init, last
-vars == <<o, hist, init, last>>
-View == <<o, init, IF Memory = 1 THEN last ELSE 0>>
+VARIABLES o, hist, init, last, last2
+vars == <<o, hist, init, last, last2>>
+\* Memory = 2 also keeps the class of the call before the previous one: what a mutator leaves behind in the representation (and the
+\* abstract state hides) is then carried through one intermediate call into every following call
+View == <<o, init, IF Memory >= 1 THEN last ELSE 0, IF Memory >= 2 THEN last2 ELSE 0>>
 
 Sign(x, y) == IF x < y THEN "lt" ELSE IF x = y THEN "eq" ELSE "gt"
 CallClass(s, c) == IF c.op = "resize" THEN <<c.op, Sign(c.n, Len(s.bits))>>
@@ -46,7 +48,7 @@ Calls(s) == {c \in AllCalls(s) : /\ OpClass(c) \in Ops
 
 Entry(c, n) == [c |-> c, kind |-> n.kind, bits |-> n.bits, w |-> n.w, flags |-> Flags(n)]
 
-Init == /\ hist = << >> /\ last = << >>
+Init == /\ hist = << >> /\ last = << >> /\ last2 = << >>
         /\ \/ \E k \in InitKinds \ {"int"} : o = NewObj(k) /\ init = [kind |-> k, w |-> 0]
            \/ "int" \in InitKinds /\ \E w \in IntWidths : o = NewInt(w) /\ init = [kind |-> "int", w |-> w]
 
@@ -57,6 +59,7 @@ Next == /\ Len(hist) < MaxDepth
             IN /\ o' = n
                /\ hist' = h
                /\ last' = CallClass(o, c)
+               /\ last2' = last
                /\ UNCHANGED init
                /\ PrintT(<<"REPLAY", ToJson([k |-> "life", init |-> init, steps |-> h])>>)
 
